@@ -65,9 +65,11 @@ def ctx_trace(tid, cfg, ops):
     before = dm.dump(blocks)
     for op in ops:
         rec = dict(op, raised="", chg=[], ext=0)
-        bits = op["fc"] in (1, 2, 5, 15)
+        bits = op.get("fc") in (1, 2, 5, 15)
         try:
-            if op["op"] == "cvalidate":
+            if op["op"] == "creset":
+                ctx.reset()
+            elif op["op"] == "cvalidate":
                 rec["res"] = 1 if ctx.validate(op["fc"], op["a"], op["n"]) else 0
             elif op["op"] == "cget":
                 if not ctx.validate(op["fc"], op["a"], op["n"]):
@@ -206,7 +208,9 @@ def gen(tier, rng):
                 n = rng.choice([1, 2, 3, 8])
                 a = rng.choice(dm.boundary_addrs(cfg, t, rng, n))
                 c = rng.random()
-                if c < 0.4:
+                if c < 0.04:
+                    ops.append({"op": "creset"})       # the context-level reset: every table back to its defaults, nothing else changes
+                elif c < 0.4:
                     ops.append({"op": "cvalidate", "fc": fc, "a": a, "n": n})
                 elif c < 0.7:
                     ops.append({"op": "cget", "fc": fc, "a": a, "n": n})
